@@ -43,6 +43,13 @@ def check(run):
     with R.as_rule('C14.lazy'):
         C04.wire(R)
         C04.order(R)
+    from . import C08
+    R.rule('C14.interleave', 'a Ping between the fragments of a message is delivered: the fragmentation sequence checks '
+                             'apply to data frames only', 3)
+    R.rule('C14.open', 'Pongs are refused only once a Close has really been attempted: close() enters the closing state '
+                       'only after _send_close() returned', 4)
+    interleave(R)
+    C08.onlyclose(R, RID='C14.open')
     before(R)
     branch(R)
     only(R)
@@ -217,3 +224,39 @@ def bound(R):
     R.ob('C14.bound', 'pong payload bound is exactly 125', hi == 125 and lo in (-INF, 0),
          'send_pong sends payload lengths in [%s, %s]; every Ping payload (0..125 bytes) must be answerable' % (lo, hi),
          func=f, node=c, construct='send_pong length interval [%s, %s]' % (lo, hi))
+
+
+def interleave(R, RID='C14.interleave'):
+    """A control frame (Ping) between the fragments of a data message is passed on, never judged by the fragmentation
+    sequence checks: in WebsocketStream.feed every ProtocolError raise and every use of the fragment list is on the
+    not-is_control side; the is_control side yields the frame as a message of its own."""
+    from .common import guard_atom_sets
+    q = 'stream.WebsocketStream.feed'
+    g = R.cfg(q)
+    f = R.func(q)
+    n_r = 0
+    for n in g.live_nodes():
+        if n.kind != 'stmt' or not isinstance(n.ast, ast.Raise) or any(fr.kind == 'handler' for fr in n.frames):
+            continue
+        toks = R.exc.exc_tokens_of_value(n.ast.exc, g.ctx) if n.ast.exc is not None else set()
+        if not any('errors.ProtocolError' in R.exc.supers(t) for t in toks):
+            continue
+        n_r += 1
+        lits = set()
+        for forms in guard_atom_sets(g, n):
+            lits |= set(forms)
+        ok = any(t.endswith('.is_control') and not p for (t, p) in lits)
+        R.ob(RID, 'sequence check applies to data frames only', ok,
+             'the fragmentation check `%s` also runs for control frames: a Ping between the fragments of a message raises '
+             'ProtocolError instead of being answered' % n.text()[:70], func=f, node=n.ast,
+             construct='sequence check on control frames')
+    need(n_r >= 2, 'WebsocketStream.feed: fragmentation sequence checks not found')
+    ctl = []
+    for y in g.yields():
+        lits = set()
+        for forms in guard_atom_sets(g, y):
+            lits |= set(forms)
+        if any(t.endswith('.is_control') and p for (t, p) in lits):
+            ctl.append(y)
+    R.ob(RID, 'control frames are passed on at once', len(ctl) >= 1, 'no yield on the is_control side of stream.feed',
+         func=f, node=None, construct='control frame yield')
